@@ -59,8 +59,8 @@ CLAIMED = {
   text="Rust side only. (a) For every balanced sequence of up to 3-4 comments drawn from templates with 0-2 tag events each, with symbolic comment geometry (line, column, byte offset; ordered, non-overlapping), the MIR of parse_blocks_from_comments / BlockStart::new / source_position_at / into_block returns exactly the innermost-first matching, in source order, each block with the name, '<'/'>' positions, content byte range and content position range of the reference (Z3 terms over the geometry). (b) For every comment text up to N bytes the eleven normaliser closures return text of the same length in which every byte is kept or blanked and line breaks stay in place.",
   note="The largest exclusion of the suite: tree-sitter (which nodes exist, their kinds and ranges; string literals; 23 grammars; CRLF) are stubs; the tag scanner and grammar run from the crate's MIR on each template's text (winnow combinators are models, C05). What is claimed is the Rust side."),
  'C20': dict(
-  text="For concrete multi-file scenarios executed on the real MIR of detect_validators, validators::run (sync path), the sync validators and process_violations, with the iteration order of every hash map and the validator spawn order chosen by the solver (all permutations of <=3 entries) and one severity attribute symbolic: the instantiated validators, the merged violations (as multisets), and the exit status are identical across all orders; parse_blocks examines the same files and produces the same keys under every walk/map order.",
-  note="A hashing seed can only change iteration order, which is a parameter of the HashMap model. Threads are run in spawn order. Outside: OS scheduling, core count, cwd, the order ignore::Walk really produces, the async validators."),
+  text="For concrete multi-file scenarios executed on the real MIR of detect_validators, validators::run (sync path), the sync validators and process_violations, with the iteration order of every hash map and the validator spawn order chosen by the solver (all permutations of <=3 entries) and one severity attribute symbolic: the instantiated validators, the merged violations (as multisets), and the exit status are identical across all orders; parse_blocks examines the same files and produces the same keys under every walk/map order; diff sections in every order give the same line changes. An async scenario (four check-lua blocks, one check-ai block, one sync validator; healthy and with one failing script) on the coroutine MIR gives one verdict under every completion order of the tokio tasks, every map order and every core count in [1,16] (symbolic).",
+  note="A hashing seed can only change iteration order, which is a parameter of the HashMap model. Threads are run in spawn order, tokio tasks as atomic steps in every completion order; the core count is std::thread::available_parallelism as a symbolic input (replayed with taskset). Outside: OS scheduling inside tasks, cwd, the order ignore::Walk really produces."),
  'C18': dict(
   text="On the MIR of validators::run, run_async_validators, CheckLuaValidator::validate, the per-block task, run_lua_script (all as the coroutine state machines rustc prints), block_content and create_violation: for 1-3 (thorough 4) check-lua blocks over 1-2 files, every outcome per script from {nil, string, file missing, load error, no validate, runtime error, non-string result}, symbolic content / blanks / returned strings / attribute values and every completion order of the tasks, Z3 shows: any failing script makes the run Err; otherwise validate() is called exactly once per block with ctx.file = the file path, ctx.line = the start tag's line, ctx.attrs = all attributes and content = trimmed content or the `value` group / whole first match / empty; nil gives no diagnostic, a string exactly one check-lua diagnostic whose lua_error is that string.",
   note="mlua and the Lua VM are a contract stub (handles, recorded table.set, outcome per script), tokio is a model: a spawned task runs atomically when the JoinSet is polled and the completion order is a forked choice - real interleavings inside tasks, 1..16 worker threads, CPU affinity and timing are NOT explored (the schedules/fault_sequences quantifier of the property is covered only as 'every completion order' and 'every subset failing in each mode'). Every run validates sampled paths against the real binary with real Lua scripts that log their arguments. Up to 4 blocks, not 40."),
